@@ -1,5 +1,5 @@
 (* C16 - Dirty marks are confined to what was written (tracking is precise).  Statements only. *)
-From VM Require Import Prelude.MachInt Impl.Dirty Spec.C05 Suite.C05 Proofs.C05 Proofs.C05ModelOk.
+From VM Require Import Prelude.MachInt Prelude.Outcome Impl.Bitmap Impl.Dirty Spec.C05 Suite.C05 Proofs.C05 Proofs.C05ModelOk Proofs.LinkDirtyBitmap.
 
 (* a page reported dirty after an operation was dirty before it, or contains a byte of a range the
    operation marked; and (next theorem) the marked range IS the written range for every operation
@@ -47,3 +47,50 @@ Print Assumptions C16_marked_is_written.
 Print Assumptions C16_mark_spec.
 Print Assumptions C16_page_in_overlap.
 Print Assumptions C16_model_ok.
+
+(* ---------------------------------------------------------------------------------------------
+   LINK to C09 (Proofs/LinkDirtyBitmap.v).  [mark] above is no longer an assumed interface: the
+   word-level AtomicBitmap model of Impl/Bitmap.v refines it.  [pages_of b] is the page list a
+   bitmap denotes (C09's abs_pages over 0..len). *)
+
+(* for every bitmap satisfying C09's invariant and EVERY offset / length (including the wrapped
+   BaseSlice offsets): mark_dirty and reset_addr_range never panic nor run out of fuel, keep the
+   invariant and compute [mark .. true] / [mark .. false] on the page list; reset clears it;
+   dirty_at is the page lookup *)
+Theorem C16_bitmap_refines_mark : forall b off len, bm_inv b ->
+  (bm_mark_dirty_o b off len = Val (bm_mark_dirty b off len) /\ bm_inv (bm_mark_dirty b off len) /\
+   pages_of (bm_mark_dirty b off len) = mark (bm_ps b) (pages_of b) off len true) /\
+  (bm_reset_addr_range_o b off len = Val (bm_reset_addr_range b off len) /\ bm_inv (bm_reset_addr_range b off len) /\
+   pages_of (bm_reset_addr_range b off len) = mark (bm_ps b) (pages_of b) off len false) /\
+  (bm_inv (bm_reset b) /\ pages_of (bm_reset b) = map (fun _ => false) (pages_of b)) /\
+  (bm_dirty_at_o b off = Val (bm_dirty_at b off) /\ bm_dirty_at b off = nthb (pages_of b) (off / bm_ps b)) /\
+  length (pages_of b) = N.to_nat (bm_len b).
+Proof. exact bitmap_refines_lemma. Qed.
+
+(* a region built with AtomicBitmap::new(size, page) is a valid word-level region and abstracts
+   to the all-clean Dirty.v region *)
+Theorem C16_new_region_refines : forall st size ps, 0 < ps -> size < W64 ->
+  let w := {| w_start := st; w_size := size; w_ps := ps; w_bm := Some (bm_new size ps) |} in
+  wwf w /\ abs_region w = {| r_start := st; r_size := size; r_ps := ps; r_tracked := true;
+                             r_dirty := repeat false (N.to_nat (npages size ps)) |}.
+Proof. exact new_region_lemma. Qed.
+
+(* C16_precise on the word-level bitmap ([wrun_step], [WD]: see Properties/C05.v): if dirty_at(i)
+   answers true after a step, it did before, or an effect of the step marked a byte on i's page *)
+Theorem C16_precise_words : forall hm ws s ws' out, wwfs ws -> is_reset s = false -> wrun_step hm ws s = (ws', out) ->
+  forall j i, WD ws' j i = true ->
+  WD ws j i = true \/
+  exists e w i', In e (o_effs out) /\ e_r e = j /\ nth_error ws j = Some w /\
+                 e_woff e <= i' < e_woff e + e_mlen e /\ i' / w_ps w = i / w_ps w /\ i' < w_size w.
+Proof. exact C16_precise_words_lemma. Qed.
+
+Example C16_words_nonvacuous :
+  let w := {| w_start := 4096; w_size := 8192; w_ps := 4096; w_bm := Some (bm_new 8192 4096) |} in
+  map (fun w => option_map bm_words (w_bm w)) (fst (wrun_step 0 [w] (SGuest (GWrite 8 (4096 + 4088))))) = [Some [1]] /\
+  map (fun w => option_map bm_words (w_bm w)) (fst (wrun_step 0 [w] (SGuest (GRead 8 (4096 + 4092))))) = [Some [0]] /\
+  map (fun w => option_map bm_words (w_bm w)) (fst (wrun_step 0 [w] (SGuest (GWrite 8 (4096 + 4089))))) = [Some [3]].
+Proof. vm_compute. repeat split. Qed.
+
+Print Assumptions C16_bitmap_refines_mark.
+Print Assumptions C16_new_region_refines.
+Print Assumptions C16_precise_words.
